@@ -281,8 +281,11 @@ def d1_reaching_defs(ctx: Ctx):
     ctx.check(ok, RD, f, 'same_object_defs', 'an element store and a phi denote the object(s) they came from; a rebinding denotes a new one', f'got {rows}')
 
 
-def _check_always_returns(ctx: Ctx):
-    """`_always_returns(block)` may say yes only for a block control cannot leave through its end: evaluated, from its
+def _check_always_returns(ctx: Ctx, complete: bool = False):
+    """(`complete`: also the converse, which is what C15 needs -- the front end accepts a program whose arm ends in a return,
+    an if/else of returns or a `with` around one without asking that arm to define what is read afterwards, so an arm
+    the front end takes as terminated and this helper does not leaves the read with no definition at all.)
+    `_always_returns(block)` may say yes only for a block control cannot leave through its end: evaluated, from its
     source, on every block of up to two statements over {assignment, return, if/else, one-armed if, while, for, with}
     nested two deep, against the definition (last statement is a return, an if/else whose arms both are, or a `with`
     whose body is)."""
@@ -333,8 +336,14 @@ def _check_always_returns(ctx: Ctx):
     for desc, b in blocks(2):
         got = Interp(funcs).call_function(fn, [b])
         n += 1
-        if got and not oracle(desc) and bad is None:
+        if got and not oracle(desc) and bad is None and not complete:
             bad = f'a block ending in {desc[-1] if desc else "nothing"} is taken to always return'
+        if complete and not got and oracle(desc) and bad is None:
+            bad = f'a block ending in {desc[-1]} is not taken to always return'
+    if complete:
+        ctx.check(bad is None, RD, fn, '_always_returns', f'every block the front end takes as terminated is one reaching definitions drops from the merge ({n} block shapes)',
+                  (bad or '') + ': `if c: with K: return x  else: y = x + 1` followed by `return y` is accepted, and then every call fails looking up the definition of `y`')
+        return
     ctx.check(bad is None, RD, fn, '_always_returns', f'"always returns" is claimed only for blocks control cannot fall out of ({n} block shapes)',
               (bad or '') + ': the definitions of the arm that does fall through are dropped from what follows')
 
@@ -641,6 +650,19 @@ def d2_partial_eval(ctx: Ctx):
             bad = f'meet({name[id(a)]}, {name[id(b)]}) = {"top" if is_top else "a constant"}'
     ctx.check(bad is None, PE, f, '_PartialEvalInstance._meet', 'constants are compared sign and all: +0.0 and -0.0 do not merge into one constant',
               (bad or '') + ': `if c: x = 0.0 else: x = -0.0; return x` would be folded to one of the two zeros')
+    # folded lists and tuples: the same constant only when they have the same kind, the same length and the same elements
+    one, two, three = Fraction(1), Fraction(2), Fraction(3)
+    bad = None
+    for a, b, want_same in (([one], [one, two], False), ([one, two], [one], False), ([], [one], False), ([one, two], [one, two], True), ([one, two], [one, three], False),
+                            ((one, two), [one, two], False), ([[one], [two]], [[one], [two, three]], False), ([[one], [two, three]], [[one], [two, three]], True),
+                            ((one, [two]), (one, [two, three]), False), ([nz], [pz], False)):
+        it = Interp(funcs, methods=meths, globals_={'_TOP': 'TOP'}, overrides={'same_value': same_value})
+        got = it.call_function(meths['_meet'], [a, b], bound_self=True)
+        is_top = isinstance(got, str) and got == 'TOP'
+        if is_top == want_same and bad is None:
+            bad = f'meet({a!r}, {b!r}) = {"top" if is_top else "a constant"}'.replace('Fraction', '')
+    ctx.check(bad is None, PE, f, '_PartialEvalInstance._meet', 'folded lists / tuples merge into one constant only with the same kind, length and elements (10 rows)',
+              (bad or '') + ': `if c: xs = [1.0] else: xs = [1.0, 2.0]; return len(xs)` would report `len(xs)` as the constant 1')
     for m in ('_visit_if1', '_visit_if'):
         f = ctx.fn(PE, f'_PartialEvalInstance.{m}')
         calls = [call_name(k) for k in calls_in(f)]
@@ -1318,6 +1340,9 @@ RULES = [
 from ..selftest import Mutant  # noqa: E402
 
 MUTANTS = [
+    Mutant('lists-compared-over-the-common-prefix', PE, "            type(a) is type(b) and len(a) == len(b)\n            and all(", "            type(a) is type(b)\n            and all(", 'C13.D2',
+           'seeded change C13d: `[1.0]` and `[1.0, 2.0]` merge into the constant `[1.0]`'),
+    Mutant('list-and-tuple-one-constant', PE, "            type(a) is type(b) and len(a) == len(b)\n            and all(", "            len(a) == len(b)\n            and all(", 'C13.D2'),
     # D1
     Mutant('returning-arm-merged', RD, "        if ift_returns != iff_returns:\n            self.phis[stmt] = {}\n            return iff_out if ift_returns else ift_out\n", "", 'C13.D1',
            'finding F39 before its repair: `if c: return 0 else: t = 1; return t` fails with KeyError t'),
